@@ -16,7 +16,111 @@ def uses_functions(it):
     return any(f.has(n) for f in it.all_fields() for n in ("from", "try_from", "map", "missing", "error")) or (it.get("deny") and it.get("deny")[1] is not None)
 
 
+# ---------------------------------------------------------------- user functions returning the impl's own error type
+
+def wi(n):
+    return {"i": str(n)}
+
+
+def own_payloads(rng):
+    """(which, payload): well-kinded payloads for the hand-written types of harness/src/own.rs"""
+    s = lambda: rng.choice(["ok", "a", "!bad", "!", "x y", "!z"])
+    out = []
+    for which in ("tf", "gen", "tf_opt"):
+        for _ in range(3):
+            out.append((which, s()))
+    out.append(("tf_opt", None))
+    for which in ("tf_vec", "gen_vec"):
+        for n in (0, 1, 2, 4):
+            out.append((which, [s() for _ in range(n)]))
+    for n in (1, 2, 4):
+        out.append(("tf_map", {"m": [["k%d" % i, s()] for i in range(n)]}))
+
+    def obj():
+        ms = [["theCount", wi(rng.choice([1, 13, 13, 200]))], ["theName", s()]]
+        if rng.random() < 0.6:
+            ms.append(["inner", rng.choice([None, s(), s()])])
+        rng.shuffle(ms)
+        return {"m": ms}
+    for _ in range(8):
+        out.append(("v", obj()))
+    for n in (1, 3):
+        out.append(("v_vec", [obj() for _ in range(n)]))
+    return out
+
+
+def own_expected(which, p, path=()):
+    """the conversion / validation failures of the payload: set of (message, location of the hand-over)"""
+    exp = set()
+    if which in ("tf", "gen", "tf_opt"):
+        if isinstance(p, str) and p.startswith("!"):
+            exp.add(("own:gen" if which == "gen" else "own:tf", path))
+    elif which in ("tf_vec", "gen_vec"):
+        for i, x in enumerate(p):
+            exp |= own_expected("gen" if which == "gen_vec" else "tf", x, path + (("i", i),))
+    elif which == "tf_map":
+        for k, x in p["m"]:
+            exp |= own_expected("tf", x, path + (k,))
+    elif which == "v":
+        d = dict((k, v) for k, v in p["m"])
+        bad = False
+        if d["theName"].startswith("!"):
+            exp.add(("own:field", path + ("theName",)))
+            bad = True
+        if isinstance(d.get("inner"), str) and d["inner"].startswith("!"):
+            exp.add(("own:tf", path + ("inner",)))
+            bad = True
+        if not bad and d["theCount"]["i"] == "13":
+            exp.add(("own:validate", path))
+    elif which == "v_vec":
+        for i, x in enumerate(p):
+            exp |= own_expected("v", x, path + (("i", i),))
+    return exp
+
+
+def loc_tuple(loc):
+    return tuple((("i", int(st["i"])) if isinstance(st, dict) else st) for st in loc)
+
+
+def own_error_check(ctx, H):
+    """C11: "a try_from or validate failure is handed to the error type at the field's (resp. container's) location" also
+    when the function returns the impl's own error type (then the hand-over is `MergeWithError<E> for E`)."""
+    cases = []
+    for which, p in own_payloads(ctx.rng):
+        for sc, d in (([], True), ([], False), ([ctx.rng.random() < 0.5 for _ in range(6)], True)):
+            cases.append({"mode": "deser", "own": which, "payload": p, "src": "ov", "err": "rec", "script": sc, "default": d, "tid": 0})
+    obs = C.run_harness(H.binary, cases)
+    nbad = 0
+    for c, o in zip(cases, obs):
+        tr = o["trace"]
+        why = None
+        if "panic" in o["res"]:
+            why = "deserialize panicked"
+        handed = set()
+        for i, call in enumerate(tr):
+            if call.get("c") == "error" and call["kind"].get("k") == "unexpected" and str(call["kind"].get("msg", "")).startswith("own:"):
+                nxt = tr[i + 1] if i + 1 < len(tr) else None
+                if not (nxt and nxt.get("c") == "merge" and nxt.get("other") == i and nxt.get("self") is None):
+                    why = why or "the error returned by the user function (call %d, %s) was not handed to the error type by the next call" % (i, call["kind"]["msg"])
+                else:
+                    handed.add((call["kind"]["msg"], loc_tuple(nxt["loc"])))
+        if why is None and c["default"] and not c["script"]:
+            exp = own_expected(c["own"], c["payload"])
+            if handed != exp:
+                why = "hand-overs of user-function failures (message, location) %s differ from the expected %s" % (sorted(handed), sorted(exp))
+            if ("ok" in o["res"]) != (not exp):
+                why = why or "Ok/Err does not match the failures of the payload"
+        if why:
+            nbad += 1
+            if nbad <= 4:
+                ctx.violation("own-%d" % nbad, {"kind": "a failure of a user function returning the impl's own error type was not handed over at the right place: " + why,
+                                               "harness_case": c, "impl": o})
+    ctx.coverage["own_error_type_runs"] = len(cases)
+    return len(cases)
+
+
 def run(ctx, H):
+    own_error_check(ctx, H)
     ents = [e for e in H.entries if any(uses_functions(it) for it in T.items_in(e.ty))]
     per = 16 if ctx.tier == "quick" else 90
     cases = []
